@@ -2,6 +2,10 @@ SPECIFICATION HSpec
 CONSTANTS
   ClearCountsRows = TRUE
   PlainNewline = TRUE
+  QuietClears = FALSE
+  Flags <- NoFlags
+  Verbs <- NoFlags
+  QuietOps = FALSE
   W = 4
   Lens <- LensSmall
   Pairs <- PairsSmall
